@@ -123,8 +123,6 @@ def register2(w):
                ensures=["implies(old(self.fromcache), len(ghost.opened_paths) == 0)"],
                note="C10: the cache is written (if at all) before the list is handed to any renderer, and never on a hit",
                props=["C10", "C11"])
-    w.contract(H + "UMN.py::UMNDirHandler.MergeLinkFiles", selfclass=["UMNDirHandler"], modifies=["self.fileentries"], raises={}, assumed=True,
-               note="verified under C08", props=["C10", "C07"])
     w.contract(H + "UMN.py::UMNDirHandler.prepare", selfclass=["UMNDirHandler"], globals=G2,
                requires=FS, modifies=["self.*"] + M2, raises={"OSError": True},
                ghost={"now": "real", "open_files": "trace", "opened_paths": "trace", "merged": "int"}, setup=_setup,
